@@ -269,10 +269,11 @@ def compare_groups(cases):
                     c.result.world.tag += " (equal after re-running to idle)"
     return cases
 
-EXTRA_MODULES = {"C14": ["TB.Props.C14run"], "C03": ["TB.Props.C03frame"], "C17": ["TB.Props.C17run", "TB.Props.C17scan"],
-                 "C01": ["TB.Props.C01bytes"], "C11": ["TB.Props.C01bytes", "TB.Props.C04h", "TB.Props.C04hist", "TB.Props.C02chain"],
-                 "C02": ["TB.Props.C02run", "TB.Props.C02chain"], "C16": ["TB.Props.C16run", "TB.Props.C16total"],
-                 "C04": ["TB.Props.C04a", "TB.Props.C04c", "TB.Props.C04h", "TB.Props.C04hist", "TB.Props.C06layout"],
+EXTRA_MODULES = {"C14": ["TB.Props.C14run"], "C03": ["TB.Props.C03frame"], "C17": ["TB.Props.C17run", "TB.Props.C17scan", "TB.Props.TopLevel"],
+                 "C01": ["TB.Props.C01bytes", "TB.Props.TopLevel"],
+                 "C11": ["TB.Props.C01bytes", "TB.Props.C04h", "TB.Props.C04hist", "TB.Props.C02chain", "TB.Props.TopLevel"],
+                 "C02": ["TB.Props.C02run", "TB.Props.C02chain", "TB.Props.TopLevel"], "C16": ["TB.Props.C16run", "TB.Props.C16total"],
+                 "C04": ["TB.Props.C04a", "TB.Props.C04c", "TB.Props.C04h", "TB.Props.C04hist", "TB.Props.C06layout", "TB.Props.TopLevel"],
                  "C15": ["TB.Props.C04a", "TB.Props.C04c", "TB.Props.C02chain"], "C12": ["TB.Props.C06layout"]}
 
 PROPS = {
